@@ -152,6 +152,7 @@ Len = z3.Length
 a_, c_, q_, r_, t_, p_ = z3.Ints("a_ c_ q_ r_ t_ p_")
 lemma("mul_mono", [a_, x_, c_], Imp(And(a_ <= x_, c_ >= 0), a_ * c_ <= x_ * c_), patterns=None)
 lemma("mul_mono_strict", [a_, x_, c_], Imp(And(a_ < x_, c_ > 0), a_ * c_ < x_ * c_), patterns=None)
+lemma("mul_nonzero", [a_, x_], Imp(And(a_ != 0, x_ != 0), a_ * x_ != 0), patterns=None)
 lemma("div_mod_unique", [t_, p_, q_, r_], Imp(And(p_ > 0, t_ == q_ * p_ + r_, 0 <= r_, r_ < p_),
                                               And(t_ / p_ == q_, t_ % p_ == r_)), patterns=None)
 lemma("div_bounds", [a_, c_], Imp(c_ > 0, And((a_ / c_) * c_ <= a_, a_ < (a_ / c_) * c_ + c_)), patterns=None)
